@@ -19,5 +19,9 @@ else
   shift 1
 fi
 [ "$1" = "--" ] && shift
-YAW_SRC="$SCRATCH/repo/src" "$@" && rc=0 || rc=$?
+# private copy of the Lean project (sources + build output): the patched run regenerates Generated/ there
+VERIF_DIR=$(cd "$(dirname "$0")/.." && pwd)
+cp -a "$VERIF_DIR/lean" "$SCRATCH/lean"
+rm -f "$SCRATCH/lean/.lake/verif.lock"
+YAW_LEAN_DIR="$SCRATCH/lean" YAW_SRC="$SCRATCH/repo/src" "$@" && rc=0 || rc=$?
 exit $rc
